@@ -13,7 +13,8 @@ package pkce
 //@ spec func pkce_unchanged() bool = pkce_exists == old(pkce_exists) && pkce_challenge == old(pkce_challenge) && pkce_method == old(pkce_method) && pkce_req == old(pkce_req)
 
 //@ interface PKCERequestStorage.CreatePKCERequestSession
-//@   modifies pkce_exists, pkce_challenge, pkce_method, pkce_req, stored, faults
+//@   modifies pkce_exists, pkce_challenge, pkce_method, pkce_req, stored, faults, tx_escaped
+//@   ensures tx_escaped == old(tx_escaped) + escapes(ctx, err)
 //@   ensures err == nil ==> pkce_exists == upd(old(pkce_exists), signature, true) && pkce_challenge == upd(old(pkce_challenge), signature, formget(requester.GetRequestForm(), "code_challenge")) && pkce_method == upd(old(pkce_method), signature, formget(requester.GetRequestForm(), "code_challenge_method")) && pkce_req == upd(old(pkce_req), signature, requester) && stored == upd(old(stored), requester, true) && faults == old(faults)
 //@   ensures err != nil ==> pkce_unchanged() && stored == old(stored) && faults == old(faults) + 1
 
@@ -24,7 +25,8 @@ package pkce
 //@   ensures err != nil && !eis(err, fosite.ErrNotFound) ==> faults == old(faults) + 1
 
 //@ interface PKCERequestStorage.DeletePKCERequestSession
-//@   modifies pkce_exists, faults
+//@   modifies pkce_exists, faults, tx_escaped
+//@   ensures tx_escaped == old(tx_escaped) + escapes(ctx, err)
 //@   ensures err == nil ==> pkce_exists == upd(old(pkce_exists), signature, false) && faults == old(faults)
 //@   ensures err != nil ==> pkce_exists == old(pkce_exists) && faults == old(faults) + 1
 
@@ -53,7 +55,7 @@ package pkce
 
 //@ func (*Handler).deletePKCERequestSession
 //@   requires c != nil
-//@   modifies pkce_exists, faults
+//@   modifies pkce_exists, faults, tx_escaped
 //@   ensures [C03.delete-after-verification] err == nil ==> pkce_exists == upd(old(pkce_exists), signature, false) && faults == old(faults)
 //@   ensures [C03.failed-attempt-keeps-binding] err != nil ==> pkce_exists == old(pkce_exists) && faults == old(faults) + 1 && ekind(err) == "server_error"
 
@@ -66,7 +68,7 @@ package pkce
 //@   let method = old(pkce_method[sig])
 //@   let canhandle = c.CanHandleTokenEndpointRequest(ctx, request)
 //@   requires c != nil && request != nil && !stored[request]
-//@   modifies pkce_exists, faults, hash_data, is_hash
+//@   modifies pkce_exists, faults, hash_data, is_hash, tx_escaped
 //@   ensures [C03.verifier-required] canhandle && had && challenge != "" && err == nil ==> wellformed(verifier) && transform(method, verifier) == challenge
 //@   ensures [C03.plain-opt-in] canhandle && had && challenge != "" && err == nil && method != "S256" ==> c.Config.GetEnablePKCEPlainChallengeMethod(ctx)
 //@   ensures [C03.no-session-no-verifier] canhandle && !had && err == nil ==> verifier == "" && !c.Config.GetEnforcePKCE(ctx) && !(c.Config.GetEnforcePKCEForPublicClients(ctx) && old(request.GetClient()).IsPublic())
@@ -82,7 +84,7 @@ package pkce
 //@   let sig = c.AuthorizeCodeStrategy.AuthorizeCodeSignature(ctx, resp.GetCode())
 //@   let responsible = old(ar.GetResponseTypes()).Has("code")
 //@   requires c != nil && ar != nil && resp != nil
-//@   modifies pkce_exists, pkce_challenge, pkce_method, pkce_req, stored, faults
+//@   modifies pkce_exists, pkce_challenge, pkce_method, pkce_req, stored, faults, tx_escaped
 //@   ensures [C03.authorize-stores-binding] err == nil && responsible && (challenge != "" || method != "") ==> pkce_exists[sig] && pkce_challenge[sig] == challenge && pkce_method[sig] == method
 //@   ensures [C03.plain-opt-in] err == nil && responsible && challenge != "" && method != "S256" ==> c.Config.GetEnablePKCEPlainChallengeMethod(ctx)
 //@   ensures [C03.enforced-needs-challenge] err == nil && responsible && (c.Config.GetEnforcePKCE(ctx) || (c.Config.GetEnforcePKCEForPublicClients(ctx) && old(ar.GetClient()).IsPublic())) ==> challenge != ""
